@@ -400,7 +400,7 @@ fn make_api<M: RawMutex + 'static, P: Payload>(cfg: &str) -> Box<dyn ChanApi<M, 
         let ch: &'static GenericChannel<M, P, A> = Box::leak(Box::new(GenericChannel::with_capacity(cap)));
         Box::new(BChan { ch, stream: None, cap, growing, heap })
     }
-    fn s<M: RawMutex + 'static, P: Payload, A: RingBuf<Item = P> + 'static>(cap: usize, growing: bool, heap: bool) -> Box<dyn ChanApi<M, P>> {
+    fn s<M: RawMutex + 'static, P: Payload, A: RingBuf<Item = P> + Send + 'static>(cap: usize, growing: bool, heap: bool) -> Box<dyn ChanApi<M, P>> {
         let (t, r) = generic_channel::<M, P, A>(cap);
         let chan = t.verif_channel() as *const _;
         let mut tx = Vec::with_capacity(4);
